@@ -189,6 +189,43 @@ func runC07(c *Ctx) {
 		}
 	}
 
+	c.Rule("C07-D6", "the upgrade timeout is disarmed before the swap: in both probe handlers `once.Do(close(done))` precedes upgradeTo/finishUpgradeTo on every path (else the timeout can fire after a successful probe, close the candidate, and the pending swap moves the socket onto a dead transport); and the new transport has the same read limit as a directly connected one (shared with C13-D2)", 4)
+	for _, a := range []struct{ short, fn, swap string }{
+		{"eio", "Server.maybeUpgrade", `\(\*eio\.serverSocket\)\.upgradeTo`},
+		{"eio", "clientSocket.tryUpgradeTo", `\(\*eio\.clientSocket\)\.finishUpgradeTo`},
+	} {
+		top := p.Fn(a.short, a.fn)
+		n := 0
+		for _, f := range WithAnons(top) {
+			for _, sw := range CallsTo(Calls(f), a.swap) {
+				n++
+				isDisarm := func(in ssa.Instruction) bool {
+					cl, ok := in.(*ssa.Call)
+					if !ok {
+						return false
+					}
+					sc := cl.Call.StaticCallee()
+					if sc == nil || sc.Name() != "Do" || !isOnceType(sc.Signature.Recv().Type()) {
+						return false
+					}
+					// the Do body closes `done`
+					if mc, isMC := cl.Call.Args[1].(*ssa.MakeClosure); isMC {
+						for _, c2 := range Calls(mc.Fn.(*ssa.Function)) {
+							if c2.Name == "close" && stripAmp(Term(c2.Common().Args[0])) == "done" {
+								return true
+							}
+						}
+					}
+					return false
+				}
+				early, trail := CanReachAvoiding(f, nil, func(in ssa.Instruction) bool { return in == sw.Instr }, isDisarm)
+				c.Ob("C07-D6", a.short+"."+a.fn+"/disarm-before-swap", sw.Pos(), !early, "the swap is reachable before the upgrade timeout was disarmed (once.Do(close(done))): "+trailString(p, trail))
+			}
+		}
+		c.Ob("C07-D6", a.short+"."+a.fn+"/swap-site", top.Pos(), n == 1, fmt.Sprintf("%d swap calls in the probe handler (expected 1)", n))
+	}
+	websocketReadLimit(c, "C07-D6")
+
 	c.Rule("C07-D5", "polling hand-over: Discard releases the pending poll with a NOOP packet; the client's poll loop delivers a successfully received poll result unconditionally (also when Discard happened meanwhile); QueuedPackets hands over what is still queued", 5)
 	{
 		fn := p.Fn("polling", "ServerTransport.Discard")
